@@ -19,8 +19,8 @@ VARIANTS = [
 ]
 
 RULE = ("a case is a history over the dataset names a..d (+ core.Dataset, an unknown name) and the ids e1..e4: writes whose entities "
-        "share ids across datasets and refer to each other across datasets (single and array references, 2 predicates, deleted "
-        "versions), create / delete / rename (also onto existing names, of missing names, of core.Dataset) / re-create, garbage "
+        "share ids across datasets and refer to each other across datasets (single and array references, 2 predicates that share a target, "
+        "several versions per id in every dataset, dropped references, deleted versions), create / delete / rename (also onto existing names, of missing names, of core.Dataset) / re-create, garbage "
         "collection with a raw key census before and after, restart, and a crash at one of the nine hook points inside "
         "create/rename/delete followed by a restart; after most operations and at the end: dataset list, live dataset entities of "
         "core.Dataset, change feed and listing of every name, lookups and outgoing/incoming relation queries unscoped and scoped to "
@@ -31,8 +31,11 @@ TRUSTED = [
     "a fresh NewStore/NewDsManager on the same directory: every Badger transaction committed before the hook point is durable, nothing else "
     "of the process survives (Badger's own crash durability is assumed, not tested)",
     "relation queries are modelled at the level of the graph of latest versions per dataset (not the reference-index keys and the scan "
-    "loops of GetRelatedAtTime, which belong to C03); the generated histories stay where both coincide on the pinned tree; all pages of a "
-    "query are concatenated and compared as a set",
+    "loops of GetRelatedAtTime, which belong to C03: C03_outgoing proves the outgoing scan equal to that graph); all datasets get "
+    "multi-version / multi-predicate / deleted-version histories; outgoing queries and lookups are unrestricted; INCOMING queries are only "
+    "generated for targets on which the pinned incoming scan is exact (every source links the target by one predicate and has tombstones "
+    "for it in at most one dataset - otherwise F03a of C03 applies), decided by the generator's own simulation of registry and references; "
+    "all pages of a query are concatenated and compared as a set",
     "reference-index keys are not part of the modelled state: their census before a collection is taken from the driver and the model "
     "predicts the census after it; version / change-log / latest keys are predicted exactly per dataset id",
     "write-time equality: the generated contents stay where every variant of IsEntityEqual agrees with full equality (C01/C02 cover the rest)",
@@ -127,17 +130,16 @@ def corpus_cases():
     return []
 
 
-def gen_ent(rng, i, known, plain_ok=True):
+def gen_ent(rng, i, known):
     refs = {}
-    # each predicate has its own targets: a (source, target) pair is only ever linked by one predicate, which keeps the
-    # histories off C03's finding F03a (inverse scan keeps one deleted flag per source, not per predicate)
-    for k, tg in (("r1", IDS[:2]), ("r2", IDS[2:])):
+    # the two predicates share one target (e3), so a (source, target) pair can be linked by both
+    for k, tg in (("r1", IDS[:3]), ("r2", IDS[2:])):
         if rng.chance(2, 5):
             if rng.chance(2, 3):
                 refs[k] = rng.choice(tg)
             else:
                 refs[k] = [rng.choice(tg) for _ in range(rng.range(1, 2))]
-    e = E(i, rng.choice(["a", "b", "c"]), refs, plain_ok and rng.chance(1, 6))
+    e = E(i, rng.choice(["a", "b", "c"]), refs, rng.chance(1, 6))
     known.add(i)
     for v in refs.values():
         for t in (v if isinstance(v, list) else [v]):
@@ -145,7 +147,74 @@ def gen_ent(rng, i, known, plain_ok=True):
     return e
 
 
-def gen_reads(rng, known, few):
+class Sim:
+    """What the generator knows about the history it is building: the name registry (its evolution is the same in every
+    variant of the model: a crash at hook k of create registers the name iff k >= 2, of delete / rename removes / moves it iff
+    k >= 1) and, per (source, target) pair, the predicates that ever linked it and the datasets in which a reference key of
+    the pair may have been tombstoned (a version dropping the reference, a deleted version, a first version that is deleted).
+    The incoming scan of GetRelatedAtTime on the pinned tree is exact for a target iff every source links it by one predicate
+    only (else F03a) and has tombstones for it in at most one dataset (else the stale spill-over entry, folded into F03a by
+    C03); incoming queries are only generated for such targets.  Outgoing queries and lookups need no restriction."""
+
+    def __init__(self):
+        self.names = {CORE: 1}
+        self.next = 2
+        self.vers = {}      # (uid, source) -> set of (pred, target) of the last version written
+        self.preds = {}     # (source, target) -> predicates
+        self.tombs = {}     # (source, target) -> uids
+
+    def create(self, n):
+        if n not in self.names:
+            self.names[n] = self.next
+        self.next += 1      # over-approximation of the id is irrelevant: uids only need to be distinct
+
+    def delete(self, n):
+        if n != CORE:
+            self.names.pop(n, None)
+
+    def rename(self, o, n):
+        if o != CORE and o in self.names and n != o and n not in self.names:
+            self.names[n] = self.names.pop(o)
+
+    def crash(self, c):
+        k = POINTS[c["mop"]].index(c["point"]) + 1
+        if c["mop"] == "create":
+            if k >= 2:
+                self.create(c["ds"])
+        elif c["mop"] == "delete":
+            self.delete(c["ds"])
+        else:
+            self.rename(c["ds"], c.get("to"))
+
+    def write(self, n, ents):
+        uid = self.names.get(n)
+        if uid is None:
+            return
+        for e in ents:
+            s = e["id"]
+            new = set()
+            for p, v in e["refs"].items():
+                for t in (v if isinstance(v, list) else [v]):
+                    new.add((p, t))
+                    self.preds.setdefault((s, t), set()).add(p)
+            prev = self.vers.get((uid, s))
+            gone = set()
+            if e.get("deleted"):
+                gone = new | (prev or set())
+            elif prev is not None:
+                gone = prev - new
+            for p, t in gone:
+                self.tombs.setdefault((s, t), set()).add(uid)
+            self.vers[(uid, s)] = new
+
+    def inverse_exact(self, t):
+        for (s, tt), ps in self.preds.items():
+            if tt == t and (len(ps) > 1 or len(self.tombs.get((s, t), ())) > 1):
+                return False
+        return True
+
+
+def gen_reads(rng, known, few, sim):
     ops = []
     pool = NAMES + ([] if few else ["zz"])
     if rng.chance(1, 2) or not few:
@@ -156,11 +225,17 @@ def gen_reads(rng, known, few):
     ids = sorted(known)
     if not ids:
         return ops
-    for _ in range(2 if few else 7):
+    for _ in range(2 if few else 9):
         i = rng.choice(ids)
         r = rng.below(4)
         s = [] if r == 0 else [rng.choice(pool)] if r < 3 else [rng.choice(pool), rng.choice(pool)]
         k = rng.below(3)
+        if k == 2 and not sim.inverse_exact(i):
+            cand = [x for x in ids if sim.inverse_exact(x)]
+            if cand and rng.chance(2, 3):
+                i = rng.choice(cand)
+            else:
+                k = 1
         if k == 0:
             ops.append({"op": "get", "id": U(i), "datasets": s})
         else:
@@ -170,50 +245,35 @@ def gen_reads(rng, known, few):
 
 
 def gen_case(rng, nops, crashy):
-    """Reference tombstones (a version that drops a reference, or a deleted version) are confined to ONE dataset, the first
-    "a" (followed through renames): every other dataset gets each id at most once and never deleted, and a name involved in a
-    crash is not written again.  This keeps the histories where the incoming scan of GetRelatedAtTime (C03) is exact: with
-    tombstones of one (source, target) pair in two datasets its per-dataset spill-over map goes stale (reported to C03)."""
+    """Every dataset gets several versions per id, deleted versions, dropped references and both predicates between a pair;
+    see Sim for the one restriction (which targets get incoming queries)."""
     ops = [{"op": "create", "ds": "a"}, {"op": "create", "ds": "b"}]
     known = set()
-    free = {"a"}            # names of the one dataset that may hold several versions per id
-    frozen = set()          # names involved in a crash: never written again
-    once = {}               # name -> ids already written (datasets other than the free one)
+    sim = Sim()
+    sim.create("a")
+    sim.create("b")
     for _ in range(nops):
         r = rng.below(100)
         if r < 40:
             n = rng.choice(NAMES[:3] if rng.chance(9, 10) else NAMES + ["zz"])
-            if n in frozen:
-                continue
             ids = list(IDS)
             rng.shuffle(ids)
-            ids = ids[:rng.choice([1, 2, 2, 3])]
-            if n not in free:
-                ids = [i for i in ids if i not in once.setdefault(n, set())]
-                once[n].update(ids)
-            if ids:
-                ops.append({"op": "batch", "ds": n, "ents": [gen_ent(rng, i, known, n in free) for i in ids]})
+            ents = [gen_ent(rng, i, known) for i in ids[:rng.choice([1, 2, 2, 3])]]
+            ops.append({"op": "batch", "ds": n, "ents": ents})
+            sim.write(n, ents)
         elif r < 50:
-            ops.append({"op": "create", "ds": rng.choice(NAMES)})
+            n = rng.choice(NAMES)
+            ops.append({"op": "create", "ds": n})
+            sim.create(n)
         elif r < 62:
             n = rng.choice(NAMES[:3] + ([CORE, "zz"] if rng.chance(1, 6) else []))
             ops.append({"op": "delete", "ds": n})
-            free.discard(n)
-            once.pop(n, None)
+            sim.delete(n)
         elif r < 72:
             o = rng.choice(NAMES + ([CORE] if rng.chance(1, 8) else []))
             n = rng.choice(NAMES + ([CORE] if rng.chance(1, 10) else []))
             ops.append({"op": "rename", "ds": o, "to": n})
-            if o != n and o != CORE and n != CORE:
-                # whether the rename succeeds depends on the registry: be conservative about both names
-                if o in free or n in free:
-                    free.discard(o)
-                    free.discard(n)
-                    frozen.update([o, n])
-                else:
-                    merged = once.pop(o, set()) | once.pop(n, set())
-                    once[o] = set(merged)
-                    once[n] = set(merged)
+            sim.rename(o, n)
         elif r < 80:
             ops.append({"op": "gc"})
         elif r < 86:
@@ -222,15 +282,13 @@ def gen_case(rng, nops, crashy):
             mop = rng.choice(["create", "delete", "delete", "rename"])
             c = crash(mop, rng.choice(NAMES[:3]), rng.range(1, 3), rng.choice(NAMES) if mop == "rename" else None)
             ops.append(c)
-            frozen.add(c["ds"])
-            if c.get("to"):
-                frozen.add(c["to"])
+            sim.crash(c)
         else:
-            ops += gen_reads(rng, known, True)
+            ops += gen_reads(rng, known, True, sim)
         if rng.chance(1, 3):
-            ops += gen_reads(rng, known, True)
+            ops += gen_reads(rng, known, True, sim)
     ops.append({"op": "gc"})
-    ops += gen_reads(rng, known, False)
+    ops += gen_reads(rng, known, False, sim)
     return {"ops": ops}
 
 
